@@ -39,12 +39,13 @@ var memfsOps = map[string]string{ // function name -> how the generated test cal
 func init() {
 	replayAdapters = append(replayAdapters, replayAdapter{
 		match: func(key string) bool {
-			const p = "github.com/hack-pad/hackpadfs/keyvalue.(*FS)."
-			if !strings.HasPrefix(key, p) {
-				return false
+			for _, p := range []string{"github.com/hack-pad/hackpadfs/keyvalue.(*FS).", "github.com/hack-pad/hackpadfs/mem.(*FS)."} {
+				if strings.HasPrefix(key, p) {
+					_, ok := memfsOps[strings.TrimPrefix(key, p)]
+					return ok
+				}
 			}
-			_, ok := memfsOps[strings.TrimPrefix(key, p)]
-			return ok
+			return false
 		},
 		run:    replayMemFS,
 		search: true,
@@ -204,13 +205,13 @@ func (t *memfsTr) tr(x ast.Expr) string {
 			return fmt.Sprintf("g_%s(%s, func(%s string) bool { return %s })", name, dom, v.Name, body)
 		case name == "isType" && len(n.Args) == 2:
 			return "g_isType[" + t.tr(n.Args[1]) + "](" + t.tr(n.Args[0]) + ")"
-		case name == "ms":
+		case name == "ms" || name == "keyvalue.ms":
 			return "g_st" + t.state // the in-memory store behind fs, as it was (pre) or is (post)
-		case name == "isMem":
+		case name == "isMem" || name == "keyvalue.isMem":
 			return "true"
 		case name == "isSerial":
 			return "false"
-		case name == "fsOK" || name == "fsInv":
+		case name == "fsOK" || name == "fsInv" || name == "memOK" || name == "keyvalue.fsOK":
 			return "true"
 		case name == "world":
 			return "0" // the in-memory world has no foreign state: world() == old(world())
@@ -384,6 +385,10 @@ func replayMemFS(e *Engine, fr *FuncResult, r oblResult, outDir string) (string,
 		return "not-replayable", "clause " + label + " is outside the replay translation: " + tr.bad, ""
 	}
 	op := c.Name
+	recv := "fs.kv." // the key-value file system behind the in-memory one
+	if strings.Contains(fr.Key, "/mem.(*FS).") {
+		recv = "fs." // the delegating method of mem.FS itself
+	}
 	// the variables the clause may mention: fs, parameters, results
 	var decl, call, loops, show string
 	closeLoops := ""
@@ -392,32 +397,32 @@ func replayMemFS(e *Engine, fr *FuncResult, r oblResult, outDir string) (string,
 		ps := strings.Split(memfsOps[op], ",")
 		loops = fmt.Sprintf("for _, %s := range g_names {\nfor _, %s := range []hackpadfs.FileMode{0, 0644, 0755, 0777, hackpadfs.ModeSticky | 0700, hackpadfs.ModeDir | 0711} {\n", ps[0], ps[1])
 		closeLoops = "}\n}\n"
-		call = fmt.Sprintf("%s := fs.kv.%s(%s, %s)", c.Results[0], op, ps[0], ps[1])
+		call = fmt.Sprintf("%s := %s%s(%s, %s)", c.Results[0], recv, op, ps[0], ps[1])
 		show = fmt.Sprintf(`fmt.Sprintf("%s(%%q, %%v) = %%v", %s, %s, %s)`, op, ps[0], ps[1], c.Results[0])
 	case "name":
 		loops = "for _, name := range g_names {\n"
 		closeLoops = "}\n"
 		if op == "Stat" {
-			call = fmt.Sprintf("%s, %s := fs.kv.Stat(name)", c.Results[0], c.Results[1])
+			call = fmt.Sprintf("%s, %s := %sStat(name)", c.Results[0], c.Results[1], recv)
 			show = fmt.Sprintf(`fmt.Sprintf("Stat(%%q) = %%v, %%v", name, %s, %s)`, c.Results[0], c.Results[1])
 		} else {
-			call = fmt.Sprintf("%s := fs.kv.%s(name)", c.Results[0], op)
+			call = fmt.Sprintf("%s := %s%s(name)", c.Results[0], recv, op)
 			show = fmt.Sprintf(`fmt.Sprintf("%s(%%q) = %%v", name, %s)`, op, c.Results[0])
 		}
 	case "oldname,newname":
 		loops = "for _, oldname := range g_names {\nfor _, newname := range g_names {\n"
 		closeLoops = "}\n}\n"
-		call = fmt.Sprintf("%s := fs.kv.Rename(oldname, newname)", c.Results[0])
+		call = fmt.Sprintf("%s := %sRename(oldname, newname)", c.Results[0], recv)
 		show = fmt.Sprintf(`fmt.Sprintf("Rename(%%q, %%q) = %%v", oldname, newname, %s)`, c.Results[0])
 	case "name,flag,perm":
 		loops = "for _, name := range g_names {\nfor _, acc := range []int{hackpadfs.FlagReadOnly, hackpadfs.FlagWriteOnly, hackpadfs.FlagReadWrite} {\nfor bits := 0; bits < 16; bits++ {\nflag := acc\nif bits&1 != 0 { flag |= hackpadfs.FlagCreate }\nif bits&2 != 0 { flag |= hackpadfs.FlagExclusive }\nif bits&4 != 0 { flag |= hackpadfs.FlagTruncate }\nif bits&8 != 0 { flag |= hackpadfs.FlagAppend }\nfor _, perm := range []hackpadfs.FileMode{0644, hackpadfs.ModeSticky | 0700} {\n"
 		closeLoops = "}\n}\n}\n}\n"
-		call = fmt.Sprintf("%s, %s := fs.kv.OpenFile(name, flag, perm)", c.Results[0], c.Results[1])
+		call = fmt.Sprintf("%s, %s := %sOpenFile(name, flag, perm)", c.Results[0], c.Results[1], recv)
 		show = fmt.Sprintf(`fmt.Sprintf("OpenFile(%%q, %%#x, %%v) = %%v, %%v", name, flag, perm, %s, %s)`, c.Results[0], c.Results[1])
 	case "name,atime,mtime":
 		loops = "for _, name := range g_names {\nfor _, mtime := range []time.Time{{}, time.Unix(1000, 0), time.Unix(0, 0).UTC()} {\natime := mtime\n"
 		closeLoops = "}\n}\n"
-		call = fmt.Sprintf("%s := fs.kv.Chtimes(name, atime, mtime)", c.Results[0])
+		call = fmt.Sprintf("%s := %sChtimes(name, atime, mtime)", c.Results[0], recv)
 		show = fmt.Sprintf(`fmt.Sprintf("Chtimes(%%q, %%v, %%v) = %%v", name, atime, mtime, %s)`, c.Results[0])
 	default:
 		return "not-replayable", "no call template for " + op, ""
